@@ -7,6 +7,7 @@ def install(prog):
     from . import cryptostubs  # noqa
     from . import httpstubs  # noqa
     from . import docstubs  # noqa
-    for m in (base, xmlstubs, cryptostubs, httpstubs, docstubs):
+    from . import jwtstubs  # noqa
+    for m in (base, xmlstubs, cryptostubs, httpstubs, docstubs, jwtstubs):
         if hasattr(m, 'install'):
             m.install(prog)
